@@ -353,3 +353,9 @@ Definition C08_checkb (P : proc) (prog : list instr) (tg : dtag) (d : diagram) :
          && match run_cycle P prog s with inr (Stalled _) => true | _ => false end
      | TOther => false
      end.
+
+(* ---------- the shape of every simulator theorem ---------- *)
+Definition sim_result (fuel : nat) (P : proc) (prog : list instr) (tg : dtag) (d : diagram) : Prop :=
+  (tg = TDone /\ simulate fuel P prog = Done d) \/ (tg = TStalled /\ simulate fuel P prog = Stalled d).
+(* programs as the compiler produces them: the sources of an instruction are duplicate-free *)
+Definition wf_progb (prog : list instr) : bool := forallb (fun ins => nodupb String.eqb (i_srcs ins)) prog.
